@@ -212,6 +212,10 @@ def run(prog, ctx):
 
     # ------------------------------------------------------------------ D6
     check_uniform_gram(prog, ctx)
+    # ------------------------------------------------------------------ D2 (reuse branch): values read back from the matrix-entry
+    # cache reach the matrix like fresh Gram entries, so the cache must hold lambda-free entries (rule shared with C17.D1)
+    from .C17 import check_matrix_cache
+    check_matrix_cache(prog, ctx, "C16.D2")
     # ------------------------------------------------------------------ D7
     from ..hats import check_hat_centre
     ctx.floor("C16.D7", check_hat_centre(prog, ctx, "C16.D7"), 3, "hat implementations analysed for the centre rule")
